@@ -726,7 +726,23 @@ func (act *activation) exec(a *alt, ins ssa.Instruction) []*alt {
 	case *ssa.Slice:
 		x := act.val(a, ins.X)
 		if _, _, ok := e.addrRoot(x); ok {
-			x = act.load(a, x, ins)
+			v := act.load(a, x, ins)
+			// a freshly made, still all-zero buffer is about to be filled through
+			// the slice: keep a reference to the buffer, not its (stale) value
+			fresh := T.Op(v) == "arr" && len(T.Args(v)) > 0
+			if fresh {
+				for _, el := range T.Args(v) {
+					if !strings.HasPrefix(T.Op(el), "zero:") {
+						fresh = false
+						break
+					}
+				}
+			}
+			if fresh && ins.Low == nil {
+				a.frame[ins] = T.Mk("sliceof", x)
+				break
+			}
+			x = v
 		}
 		if ins.Low == nil && ins.High == nil && ins.Max == nil {
 			a.frame[ins] = x
